@@ -66,3 +66,26 @@ func verifC10NativeMulti(lab string, ord []int) {
 	}
 	verifReach("linted")
 }
+
+var verifC14Tmp string
+
+// verifC14NativeActionDir writes the action.yml of the harness into a real directory.
+func verifC14NativeActionDir() {
+	tmp, err := os.MkdirTemp("", "verif-c14-")
+	if err != nil {
+		panic(err)
+	}
+	tmp, _ = filepath.EvalSymlinks(tmp)
+	verifC14Tmp = tmp
+	if err := os.MkdirAll(filepath.Join(tmp, "act"), 0o755); err != nil {
+		panic(err)
+	}
+	if err := os.WriteFile(filepath.Join(tmp, "act", "action.yml"), []byte(verifC14ActionYAML), 0o644); err != nil {
+		panic(err)
+	}
+	if err := os.WriteFile(filepath.Join(tmp, "act", "index.js"), []byte(""), 0o644); err != nil {
+		panic(err)
+	}
+}
+
+func verifC14Root() string { return verifC14Tmp }
